@@ -278,6 +278,69 @@ def oracle_pools(ctx, obs):
                                   {"kind": "pool_reduction", "fn": name}, dict(inp, got=o[name], single_thread=ref[name]))
 
 
+def log_tree(splits, lo, hi):
+    d = {(a, b): k for a, b, k in splits}
+
+    def rec(a, b):
+        if (a, b) not in d or b - a == 0:
+            return "L"
+        k = d[(a, b)]
+        return ("N", k, rec(a, a + k), rec(a + k, b))
+    return rec(lo, hi)
+
+
+def explainable(t, n, threads, splits, stolen_known=None, memo=None):
+    """is the observed tree an outcome of Model/C15_Bridge.v::bridge_tree for SOME steal pattern? (min = 1)"""
+    def go(t, n, splits, stolen):
+        # returns True when the subtree is consistent given this job's `stolen` flag
+        if n // 2 < 1:
+            return t == "L"
+        if stolen:
+            ok, s2 = True, max(threads, splits // 2)
+        elif splits > 0:
+            ok, s2 = True, splits // 2
+        else:
+            ok, s2 = False, splits
+        if not ok:
+            return t == "L"
+        if t == "L" or t[1] != n // 2:
+            return False
+        return any(go(t[2], n // 2, s2, a) for a in (False, True)) and any(go(t[3], n - n // 2, s2, b) for b in (False, True))
+    return go(t, n, splits, False)
+
+
+def oracle_bridge(ctx, obs):
+    """rayon's real bridge, observed through a logging producer, against the hand-written model of it (Model/C15_Bridge.v)"""
+    cases = []
+    for o in obs:
+        if o["kind"] != "bridge_log":
+            continue
+        n, T = o["len"], o["threads"]
+        ctx.seen(("bridge_log", n, T, json.dumps(o["splits"])))
+        ctx.count(f"bridge_log:threads={T}")
+        ctx.cov["obligations"] += 1
+        t = log_tree(o["splits"], 0, n)
+        bad = [(a, b, k) for a, b, k in o["splits"] if k != (b - a) // 2 or k < 1]
+        if o["sum"] != n * (n - 1) // 2 or bad or not explainable(t, n, T, T):
+            ctx.violation("S4", f"rayon's bridge on a {n}-item producer with {T} thread(s) made splits {o['splits'][:6]}… that the model of bridge (split at len/2 while len/2 >= 1, "
+                                f"budget halving, reset on steal) cannot produce", {"kind": "bridge_model_mismatch"}, o, found_input=False)
+        else:
+            ctx.cov["discharged"] += 1
+        if T == 1:
+            cases.append((f"b{len(cases)}", f"bridge 1 1 (fun _ => false) {n}", tree_coq(t)))
+    if cases:
+        res = run_compute_cases(ctx, "C15b", "From Coq Require Import List.\nFrom SpdVerif Require Import Model.Grid Model.Producer Model.C15_Bridge.\nImport ListNotations.\n", "",
+                                [(c[0], c[1]) for c in cases], shards=4)
+        for cid, _, exp in cases:
+            got = (res.get(cid) or "").replace("%nat", "")
+            ctx.cov["obligations"] += 1
+            if got.replace(" ", "").replace("(", "").replace(")", "") == exp.replace(" ", "").replace("(", "").replace(")", ""):
+                ctx.cov["discharged"] += 1
+            else:
+                ctx.violation("S4", f"one-thread rayon bridge: observed tree {exp[:120]} differs from the Coq model's {got[:120]}", {"kind": "bridge_model_mismatch"},
+                              {"case": cid, "observed": exp, "model": got}, found_input=False)
+
+
 def oracle_simpson(ctx, obs):
     """Simpson's rule is exact on cubics: every division count (both sides of the sequential/parallel threshold of `simpson`) on every
     pool size must give the exact integral of a polynomial that does not vanish at the upper limit, to 1e-12 relative"""
@@ -429,7 +492,7 @@ def run(ctx):
     ctx.cov["translated_spans"] = {k: v for k, v in spans.items() if k.startswith("c15_reductions.") or k.startswith("grid.") and any(w in k for w in ("par", "it1d", "it2d", "steps_value", "steps2d_value"))}
     for m in msgs:
         ctx.proof_failures.append(("Gen/C15_Reductions.v" if "generator c15_reductions" in m else "Gen/Grid.v", "translator", m))
-    proved = (not msgs) and prove(ctx, "C15", extra_targets=["Model/GridCheck.vo", "Props/C15_pins.vo"])
+    proved = (not msgs) and prove(ctx, "C15", extra_targets=["Model/GridCheck.vo", "Props/C15_pins.vo", "Model/C15_Bridge.vo"])
     tier = "thorough" if not quick else "quick"
     obs = run_harness(ctx, binp, ["c15", ctx.seed, 2 if quick else 10, "trees", tier], timeout=900)
     if not any(o["kind"] == "done" for o in obs):
@@ -441,6 +504,10 @@ def run(ctx):
     if not any(o["kind"] in ("done", "timeout") for o in pobs):
         ctx.violation("S5", "harness did not finish the thread-pool runs", {"kind": "crash"}, {"tail": pobs[-1] if pobs else None})
     oracle_pools(ctx, pobs)
+    bobs = run_harness(ctx, binp, ["c15", ctx.seed, 3 if quick else 20, "bridge"], timeout=600)
+    oracle_pools(ctx, [o for o in bobs if o["kind"] in ("timeout", "pool_panic")])
+    if os.path.exists(os.path.join(COQ, "Model", "C15_Bridge.vo")):
+        oracle_bridge(ctx, bobs)
     sobs = run_harness(ctx, binp, ["c15", ctx.seed, 2 if quick else 8, "simpson"], timeout=1200)
     if not any(o["kind"] in ("done", "timeout") for o in sobs):
         ctx.violation("S5", "harness did not finish the Simpson runs", {"kind": "crash"}, {"tail": sobs[-1] if sobs else None})
@@ -498,6 +565,7 @@ def run(ctx):
                                                      "sequential branch); 1e-12 float clause validated_only on pools of 1..16 threads; Simpson checked exactly on cubics across the 128 threshold",
         "range functions bit-identical across schedules": "follows from collect theorem for deterministic point functions; validated on pools; arrays whose point function "
                                                           "contains a parallel quadrature (singles) are compared to 1e-12",
+        "rayon's scheduler": "modelled as any split tree; additionally bridge with an explicit steal oracle (C15_bridge_any_steals), validated against the real rayon via a logging producer",
         "nested parallel regions complete": "validated, not proved (time-limited runs on pools of 1..16 threads)",
     }
     replay_filter(ctx, want)
